@@ -157,29 +157,32 @@ def frame_dict(df):
 
 
 def cmp_dict(name, got, want, fails, rtol=1e-12):
-    """got/want: flat dicts label -> number"""
+    """got/want: flat dicts label -> number; failure classes are named after the attribute (no labels)"""
+    base = name.split("[")[0]
     gk, wk = list(got.keys()), list(want.keys())
     if sorted(map(repr, gk)) != sorted(map(repr, wk)):
-        fails.append((name + ":labels", f"{name}: labels {gk} but written {wk}"))
+        fails.append((base + ":labels", f"{name}: labels {gk} but written {wk}"))
         return 0
     n = 0
     for k in wk:
         n += 1
         if not feq(got[k], want[k], rtol):
-            fails.append((name + ":value", f"{name}[{k}] = {got[k]!r} but the file says {want[k]!r}"))
+            fails.append((base + ":value", f"{name}[{k}] = {got[k]!r} but the output files give {want[k]!r}"))
             break
     return n
 
 
 def cmp_frame(name, got, want, fails, rtol=1e-12):
+    base = name.split("[")[0]
     gk, wk = list(got.keys()), list(want.keys())
     if sorted(map(repr, gk)) != sorted(map(repr, wk)):
-        fails.append((name + ":index", f"{name}: row labels {gk} but written {wk}"))
+        fails.append((base + ":index", f"{name}: row labels {gk} but written {wk}"))
         return 0
     n = 0
     for k in wk:
+        before = len(fails)
         n += cmp_dict(f"{name}[{k}]", got[k], want[k], fails, rtol)
-        if fails and fails[-1][0].startswith(name):
+        if len(fails) > before:
             break
     return n
 
